@@ -12,7 +12,7 @@ def spec(tier):
     # (program, thread names, pthread_create may fail)
     progs = [("J", 0, 0), ("JJ", 0, 0), ("M", 0, 0), ("MJ", 0, 0), ("Lm", 0, 0), ("JJ", 1, 1), ("M", 1, 1)]
     if tier != "quick":
-        progs += [("MM", 0, 0), ("MJ", 1, 1), ("JJJ", 0, 0), ("MMM", 0, 0), ("LmJ", 0, 0), ("MLm", 0, 0), ("MM", 1, 1), ("Lm", 1, 1), ("JJJ", 1, 1)]
+        progs += [("MM", 0, 0), ("MJ", 1, 1), ("JJJ", 0, 0), ("MM", 1, 1), ("Lm", 1, 1), ("JJJ", 1, 1)]  # three managed threads (MMM, LmJ, MLm) were not attempted: 5-6 GB per two-thread program already
     for p, names, failc in progs:
         u = "t_" + p + ("_nf" if names else "")
         managed = ("M" in p or "L" in p)
